@@ -7,8 +7,11 @@
    quantified observations ([cobs], [kobs], [bobs]).  Floats: Model/ScrollFloat.v (exact rationals + proved rounding). *)
 From Coq Require Import ZArith QArith List Bool.
 Import ListNotations.
-From Urwid Require Import PyBase ScrollBase scrollable_gen ScrollFloat Scrollable
-  ScrollableProofs ScrollFloatProofs ScrollBarProofs ThumbPrimCheck.
+(* C02's canvas models (read-only) come first so that the C20 names win where both define one (step, coords, ...) *)
+From Urwid Require Import Canvas CanvasGrid CanvasHeap CanvasProg CanvasHeapFrame CanvasHeapScope.
+From Urwid Require Import PyBase ScrollBase scrollable_gen ScrollFloat Scrollable ScrollCanvas
+  ScrollableProofs ScrollFloatProofs ScrollBarProofs ThumbPrimCheck
+  ScrollHistoryProofs ScrollProtoProofs ScrollCanvasProofs ScrollGridProofs ScrollCanvasTotal.
 Open Scope Z_scope.
 
 (* ================================================================== Scrollable *)
@@ -111,6 +114,41 @@ Theorem adjust_trim_top_in_range :
     end.
 Proof. exact adjust_spec. Qed.
 Print Assumptions adjust_trim_top_in_range.
+
+(* --- THE INVARIANT over all histories, by induction over the operation list: every list of renders/resizes, keys,
+       mouse/wheel events and set_scrollpos(any integer), every wrapped-widget answer along the way (content may change
+       size between any two operations), bare or under a ScrollBar.  [op_okb] is a BOOLEAN well-formedness predicate on
+       each operation's observations (view of >= 1 row, sane wrapped canvas; under a bar: heights < 2^53, rows() agrees
+       with the canvas).  After EVERY render: no exception, 0 <= position <= max 0 (rows - maxrow), nothing pending. *)
+Theorem scroll_invariant_all_histories :
+  forall ops w, forallb (op_okb (has_bar w)) ops = true -> all_steps_good w ops.
+Proof. exact run_invariant. Qed.
+Print Assumptions scroll_invariant_all_histories.
+
+(* --- cursor following: when the wrapped widget moved its cursor with the last forwarded key (old cursor remembered,
+       different from the new one), the position chosen keeps the cursor row in the window ... *)
+Theorem cursor_following_keeps_cursor_row_visible :
+  forall tp act old rows c r maxcol maxrow,
+    1 <= maxrow -> 0 <= r < rows -> cursor_moved old (Some (c, r)) = true ->
+    match adjust_trim_top_gen tp act old rows (Some (c, r)) (maxcol, maxrow) with
+    | (tp', _, old') => tp' <= r < tp' + maxrow /\ (maxrow < rows -> old' = None)
+    end.
+Proof. exact adjust_follows_cursor. Qed.
+Print Assumptions cursor_following_keeps_cursor_row_visible.
+
+(* ... and the render shows the cursor (at view row r - p, column c) and turns key forwarding on *)
+Theorem cursor_following_render :
+  forall st maxcol maxrow ob c r,
+    1 <= maxrow -> ob_ok ob -> fits ob maxcol maxrow = false ->
+    c_cursor ob = Some (c, r) -> 0 <= c < Z.min (c_cols ob) maxcol ->
+    cursor_moved (old_cursor st) (Some (c, r)) = true ->
+    exists st' v,
+      s_render st maxcol maxrow ob = Ok (st', v) /\
+      trim_top st' <= r < trim_top st' + maxrow /\
+      v_cursor v = Some (c, r - trim_top st') /\
+      forward st' = true /\ (maxrow < c_rows ob -> old_cursor st' = None).
+Proof. exact s_render_follows_cursor. Qed.
+Print Assumptions cursor_following_render.
 
 (* ================================================================== keys and mouse events *)
 
@@ -237,6 +275,96 @@ Theorem thumb_leaves_top_iff :
 Proof. exact thumb_top_iff. Qed.
 Print Assumptions thumb_leaves_top_iff.
 
+(* --- ScrollBar over ANY widget speaking the scrolling protocol - ListBox included, absolute and relative mode.
+       [proto_okb] is the protocol's contract as a boolean (relative: first + visible <= length; absolute:
+       0 <= get_scrollpos <= max 1 (rows_max - maxrow); counts < 2^53).  For ALL answers satisfying it: a bar is drawn
+       iff the mode wants one, render never raises, parts >= 0 (thumb >= 1) summing to the height, thumb off the top iff
+       the effective position is positive (given room), and the parts are thumb_geom of the effective position. *)
+Theorem scrollbar_over_protocol_widget :
+  forall bw maxcol maxrow po,
+    proto_okb maxrow po = true ->
+    if wants_bar maxrow po then
+      exists b,
+        pb_render bw maxcol maxrow po = Ok (Z.max 0 (maxcol - bw), Some b) /\
+        b_width b = maxcol - Z.max 0 (maxcol - bw) /\
+        0 <= b_top b /\ 1 <= b_thumb b <= maxrow /\ 0 <= b_bottom b /\
+        b_top b + b_thumb b + b_bottom b = maxrow /\
+        (0 < b_top b <-> 0 < eff_pos maxrow po /\ b_thumb b < maxrow) /\
+        (b_top b, b_thumb b, b_bottom b) =
+          thumb_geom maxrow (eff_pos maxrow po) (eff_posmax maxrow po) (snd (eff maxrow po))
+    else pb_render bw maxcol maxrow po = Ok (maxcol, None).
+Proof. exact pb_render_ok. Qed.
+Print Assumptions scrollbar_over_protocol_widget.
+
+(* the bar drawn over a Scrollable is this generic bar for the answers a Scrollable gives (not relative-capable,
+   rows_max as observed, get_scrollpos = the position render left) *)
+Theorem scrollbar_over_scrollable_is_protocol_bar :
+  forall bs maxcol maxrow ob bs' cw b v,
+    b_render bs maxcol maxrow ob = Ok (bs', (cw, b, v)) ->
+    pb_render (bar_width_raw bs) maxcol maxrow
+      (PObs false false 0 0 0 (o_rows_full ob) (o_rows_w ob) (trim_top (inner bs'))) = Ok (cw, b).
+Proof. exact b_render_is_proto. Qed.
+Print Assumptions scrollbar_over_scrollable_is_protocol_bar.
+
+(* ================================================================== the canvas objects (through C02's canvas models) *)
+
+(* Scrollable.render written once over an abstract canvas ([render_skel]); its sizes-only instance IS the model the
+   correspondence ties to the code *)
+Theorem canvas_skeleton_is_the_size_model :
+  forall st maxcol maxrow ob,
+    render_skel dims_ops st maxcol maxrow (c_selectable ob) (c_cursor ob) (dims_of ob) =
+    match s_render st maxcol maxrow ob with
+    | Ok (st', v) => Ok (st', dims_of_view ob v)
+    | Err e => Err e
+    end.
+Proof. exact dims_is_s_render. Qed.
+Print Assumptions canvas_skeleton_is_the_size_model.
+
+(* --- render never modifies the wrapped widget's canvas.  On C02's heap layer (list objects with identity; the wrapped
+       canvas's shards list is SHARED by "canv = CompositeCanvas(canv_full)"): whenever render returns, (1) it computed
+       what the CompositeCanvas model computes, (2) every list object that existed before still has its contents
+       ([hext]), (3) the wrapped canvas [v] denotes the same value, internal shards included.  Every state, size,
+       position, wrapped canvas - no hypothesis beyond the wrapped canvas's references being valid. *)
+Theorem render_never_modifies_wrapped_canvas :
+  forall st maxcol maxrow sel h v st' h' c',
+    vscoped h v ->
+    sh_render st maxcol maxrow sel h v = Ok (st', (h', c')) ->
+    sc_render st maxcol maxrow sel (to_value h v) = Ok (st', to_comp h' c') /\
+    hext h h' /\
+    to_value h' v = to_value h v.
+Proof. exact sh_render_frame. Qed.
+Print Assumptions render_never_modifies_wrapped_canvas.
+
+(* --- everything together, total: for every state, every view of at least 1x1, every well-formed wrapped canvas
+       (a C02 canvas value denoting a rectangular grid of clean rows, cursor inside): render on the heap NEVER raises,
+       modifies no pre-existing list object, returns a canvas whose cells are EXACTLY rows [p, p+maxrow) x columns
+       [0, maxcol) of the wrapped grid padded with blanks ([spec_grid]), with p in range, and leaves the state - and
+       reports the p - that Model/Scrollable.s_render computes from the sizes alone. *)
+Theorem render_on_canvas_objects :
+  forall st maxcol maxrow sel h v gv,
+    1 <= maxrow -> 1 <= maxcol ->
+    vscoped h v -> vrel (to_value h v) gv ->
+    grect (gg gv) -> gclean (gg gv) -> cursor_ok (cur (gco gv)) (gheight (gg gv)) ->
+    exists st' h' c' vw,
+      sh_render st maxcol maxrow sel h v = Ok (st', (h', c')) /\
+      hext h h' /\ to_value h' v = to_value h v /\
+      content (deref h' (hid c')) = Ok (spec_grid (gg gv) (trim_top st') maxcol maxrow) /\
+      0 <= trim_top st' <= Z.max 0 (gheight (gg gv) - maxrow) /\
+      s_render st maxcol maxrow (ob_of_grid gv sel) = Ok (st', vw) /\ v_top vw = trim_top st'.
+Proof. exact sh_render_total. Qed.
+Print Assumptions render_on_canvas_objects.
+
+(* the same on plain grids (C02's reference semantics), without any canvas machinery *)
+Theorem render_on_grids :
+  forall st maxcol maxrow sel g co fi lf,
+    1 <= maxrow -> 1 <= maxcol -> grect g -> gclean g -> cursor_ok (cur co) (gheight g) ->
+    exists st' g',
+      sg_render st maxcol maxrow sel (GV g co fi lf) = Ok (st', g') /\
+      gg g' = spec_grid g (trim_top st') maxcol maxrow /\
+      0 <= trim_top st' <= Z.max 0 (gheight g - maxrow).
+Proof. exact sg_render_spec. Qed.
+Print Assumptions render_on_grids.
+
 (* ================================================================== the float model *)
 
 (* what the thumb theorems use about binary64 rounding - proved of the rational model, not assumed *)
@@ -309,3 +437,36 @@ Example ex_handled_key :
   action (fst (s_keypress st false KDown (KObs false None true KOther))) = ANone /\
   action (fst (s_keypress st false KDown (KObs false None false KDown))) = ALineDown.
 Proof. vm_compute. split; reflexivity. Qed.
+
+(* the canvas-object theorems are not vacuous: a 3x5 text canvas wrapped in a CompositeCanvas (as a Pile would return it),
+   rendered in a 2x2 view at position 2: the hypotheses hold, render allocates a NEW shards list (id differs), the wrapped
+   canvas's own list object is unchanged, and the cells are rows 2..3, columns 0..1 *)
+Definition ex_rows : list row := map (fun i => [Cell KN 0 0 [65 + i]; Cell KN 0 0 [97 + i]; Cell KN 0 0 [48 + i]]) [0; 1; 2; 3; 4].
+Definition ex_leaf : hvalue := HLeaf (Canvas 1 (LText ex_rows 3)) None.
+Definition ex_wrapped : heap * hcomp := match h_wrap empty_heap ex_leaf with Ok x => x | Err _ => (empty_heap, HC 0 no_coords false) end.
+Example ex_canvas_objects :
+  let h0 := fst ex_wrapped in let c0 := snd ex_wrapped in
+  vscoped h0 (HComp c0) /\ grect ex_rows /\ gclean ex_rows /\
+  match sh_render (s_set_scrollpos sinit 2) 2 2 false h0 (HComp c0) with
+  | Ok (st', (h', c')) =>
+      trim_top st' = 2 /\ hid c' <> hid c0 /\ deref h' (hid c0) = deref h0 (hid c0) /\
+      content (deref h' (hid c')) = Ok (spec_grid ex_rows 2 2 2)
+  | Err _ => False
+  end.
+Proof.
+  cbv zeta. split.
+  - change (fst ex_wrapped) with (fst ex_wrapped). vm_compute. repeat split; try discriminate. repeat constructor; discriminate.
+  - split; [|split].
+    + unfold grect. vm_compute. repeat split; try reflexivity. repeat constructor.
+    + unfold gclean. repeat constructor.
+    + vm_compute. repeat split; try reflexivity. discriminate.
+Qed.
+
+(* a ListBox-like widget in relative mode, one in absolute mode; a history with a huge position, keys, a wheel event,
+   a resize and content changes satisfies the boolean well-formedness predicate and visits positions 7, 3, 4, 0, 37 *)
+Example ex_protocol_relative_mode :
+  let po := PObs true true 40 5 12 40 40 12 in
+  proto_okb 5 po = true /\ wants_bar 5 po = true /\ pb_render 1 7 5 po = Ok (6, Some (Bar 1 1 1 3)).
+Proof. exact ex_proto_relative. Qed.
+Example ex_history_well_formed : forallb (op_okb true) ex_history = true.
+Proof. exact (proj1 ex_history_ok). Qed.
